@@ -108,6 +108,14 @@ fn check_case(prog: &Prog, decls: &Decls, base: &Sess, tokens: &[String], o: &mu
     if tokens.len() > 1 {
         o.distinct_nontrivial += 1;
     }
+    if o.samples.len() < 2 && tokens.len() > 2 {
+        use std::hash::{Hash, Hasher};
+        let mut h = std::collections::hash_map::DefaultHasher::new();
+        (prog.id, tokens, crate::e3::seed()).hash(&mut h);
+        if h.finish() % 61 == 0 {
+            o.samples.push(json!({"program": prog.id, "line": typed_line(tokens), "declaration_says": format!("{:?}", exp)}));
+        }
+    }
     // seam 1: the structured result of FromRaw::parse
     let raw_args = tokens[1..].join("\0");
     let got = std::panic::catch_unwind(std::panic::AssertUnwindSafe(|| (prog.parse)(&tokens[0], &raw_args, tokens.len() == 1)));
@@ -234,7 +242,9 @@ pub fn c09(progs: &[Prog], decls: &Decls, max_tokens: usize) -> EnumOutcome {
     out.rule = "declarations enumerated by gen.py and compiled with the repository's macros; per command every token sequence up to the bound; non-trivial = at least one argument token and a specified expectation".into();
     out.exhaustive = true;
     out.extra.insert("programs".into(), json!(list.len()));
-    out.samples = vec![json!({"program": "PN0", "line": "mixed \"--level\" \"7\" \"get\" \"f\""}), json!({"program": "PS0", "line": "get-led-state \"300\""})];
+    if out.samples.is_empty() {
+        out.samples = vec![json!({"program": "PN0", "line": "mixed \"--level\" \"7\" \"get\" \"f\""})];
+    }
     out.wall_s = t0.elapsed().as_secs_f64();
     out
 }
@@ -442,6 +452,14 @@ fn visibility<'a>(decls: &'a Decls, id: &str) -> (Vec<&'a CmdD>, Vec<&'a CmdD>) 
 fn help_case(prog: &Prog, base: &Sess, tokens: &[String], o: &mut EnumOutcome) -> Option<String> {
     o.evaluations += 1;
     let line = typed_line(tokens);
+    if o.samples.len() < 2 {
+        use std::hash::{Hash, Hasher};
+        let mut h = std::collections::hash_map::DefaultHasher::new();
+        (prog.id, tokens, crate::e3::seed()).hash(&mut h);
+        if h.finish() % 97 == 0 {
+            o.samples.push(json!({"program": prog.id, "help_shaped_line": line.clone()}));
+        }
+    }
     let r = run_line(prog, base, &line);
     let case = vec![prog.id.to_string(), line.clone()];
     if let Some(p) = r.panic {
@@ -660,7 +678,9 @@ pub fn c12(progs: &[Prog], decls: &Decls, max_tokens: usize) -> EnumOutcome {
     out.rule = "`help`, help for every command and nested path in three spellings (with parent options in front of the sub-command name), one wrong step, hidden commands, and a help option inserted at every position of every argument line up to the bound; non-trivial = lines whose help text is checked structurally".into();
     out.exhaustive = true;
     out.extra.insert("programs".into(), json!(list.len()));
-    out.samples = vec![json!({"program": "PN0", "line": "help mixed \"-l\" \"5\" \"--verbose\" \"get\""}), json!({"program": "G1", "line": "help"})];
+    if out.samples.is_empty() {
+        out.samples = vec![json!({"program": "G1", "help_shaped_line": "help"})];
+    }
     out.wall_s = t0.elapsed().as_secs_f64();
     out
 }
@@ -783,6 +803,14 @@ pub fn c11(progs: &[Prog], decls: &Decls, max_sym: u32, extra_cb: usize) -> Enum
                         };
                         if at != line.as_str() {
                             o.distinct_nontrivial += 1;
+                            if o.samples.len() < 2 {
+                                use std::hash::{Hash, Hasher};
+                                let mut h = std::collections::hash_map::DefaultHasher::new();
+                                (prog.id, line, cb, left, crate::e3::seed()).hash(&mut h);
+                                if h.finish() % 211 == 0 {
+                                    o.samples.push(json!({"names": names, "line": line, "cursor": nchars - left, "cb": cb, "after_tab": at}));
+                                }
+                            }
                         }
                         if !log.is_empty() {
                             o.viol("C11/tab-invoked-handler", format!("{:?}", case), case.clone());
@@ -812,7 +840,9 @@ pub fn c11(progs: &[Prog], decls: &Decls, max_sym: u32, extra_cb: usize) -> Enum
     out.rule = "every ordered list of names from the pool as one derived enum (and groups of two, visible/hidden), every line over {a,b,é,h,space}, every cursor position, every buffer size from the line length to +extra; the derived autocomplete is also called directly for every word and buffer length; non-trivial = Tab changed the line".into();
     out.exhaustive = true;
     out.extra.insert("programs".into(), json!(list.len()));
-    out.samples = vec![json!({"names": ["abc", "b", "abd"], "line": "a", "cursor": 1, "cb": 3})];
+    if out.samples.is_empty() {
+        out.samples = vec![json!({"names": ["abc", "b", "abd"], "line": "a", "cursor": 1, "cb": 3})];
+    }
     out.wall_s = t0.elapsed().as_secs_f64();
     out
 }
